@@ -39,17 +39,44 @@ def run(ctx, idx):
         ctx.hold("C02.a", con, "mpilot/program.py", starts[0].node.lineno, "%d functions reachable from loading, none is a clean()" % len(reach))
     attr = command_table_attr(idx, A)
     n_lookup = 0
+    # a lookup matters where loading or evaluating can reach it; a read-only accessor nobody on those paths calls decides nothing
+    roots = list(starts) + [c.methods[m] for c in (prog, A.command) for m in ("run", "get_argument_value", "validate_params") if m in c.methods] + cleans
+    roots += [d.execute for d, _r in R.results(idx).values()]
+    on_path, _p = idx.reachable(roots)
+
+    def off_path(fi):
+        return fi is not None and fi not in on_path and fi.cls is prog
     for mod, fi, n in K.scoped_nodes(idx):
         if isinstance(n, ast.Subscript) and isinstance(n.ctx, ast.Load) and isinstance(n.value, ast.Attribute) and n.value.attr == attr and not isinstance(n.slice, ast.Constant):
             n_lookup += 1
             ok = fi is not None and fi.cls is not None and fi.cls.name == "ResultParameter" and fi.name == "clean"
+            if not ok and off_path(fi):
+                ctx.hold("C02.a", "%s::table-lookup" % K.where(mod, fi), mod.rel, n.lineno, "accessor of Program that neither loading nor evaluation reaches", nontrivial=False)
+                continue
             ctx.ob("C02.a", "%s::table-lookup" % K.where(mod, fi), mod.rel, n.lineno, ok,
                    "run-time lookup by name in ResultParameter.clean" if ok else "the command table is indexed by name outside ResultParameter.clean: %s" % K.src(n))
         if isinstance(n, ast.Call) and isinstance(n.func, ast.Attribute) and n.func.attr == "get" and isinstance(n.func.value, ast.Attribute) and n.func.value.attr == attr:
             ok = fi is not None and fi.cls is not None and fi.cls.name == "ResultParameter"
             n_lookup += 1
+            if not ok and off_path(fi):
+                ctx.hold("C02.a", "%s::table-lookup" % K.where(mod, fi), mod.rel, n.lineno, "accessor of Program that neither loading nor evaluation reaches", nontrivial=False)
+                continue
             ctx.ob("C02.a", "%s::table-lookup" % K.where(mod, fi), mod.rel, n.lineno, ok, "lookup in ResultParameter" if ok else "the command table is queried by name outside ResultParameter.clean: %s" % K.src(n))
     ctx.floor("C02.a", "by-name lookups of the command table", n_lookup, 1)
+    from .C01 import rule_h
+
+    rule_h(ctx, idx, A, rule="C02.g")
+    # ---- h: what a derived conversion evaluates is its base's body on the caller's own arguments and the fuzzy defaults
+    from .C08 import SIBLINGS, delegation
+
+    ctx.rule("C02.h", "A command defined by delegation evaluates its definition: each CvtToFuzzyX forwards the caller's arguments to the matching NormalizeX under the documented renames, supplies the fuzzy defaults (-1/+1) for whatever the caller may omit, and returns the clamped value of that call (C08.a's table).")
+    byname = {}
+    for d_, r_ in R.results(idx).values():
+        byname.setdefault(d_.cls.name, (d_, r_))
+    for name_, base_ in SIBLINGS.items():
+        if name_ not in byname:
+            raise AnalysisError("conversion command %s vanished" % name_)
+        delegation(ctx, idx, byname[name_][0], byname[name_][1], base_, rule="C02.h")
     # ---- b, c, d
     n_exec = 0
     for key, (d, r) in sorted(R.results(idx).items()):
@@ -73,6 +100,8 @@ def run(ctx, idx):
         for n in own_nodes(fi.node):
             if isinstance(n, (ast.Global, ast.Nonlocal)):
                 probs.append((n.lineno, "declares global state"))
+        for f_, n_, (m_, nm_) in K.state_uses(idx, fi)[:1]:
+            probs.append((n_.lineno, "uses module-level state `%s.%s` that functions mutate (a cache or registry kept between executions): the result depends on what ran earlier in the process, not on the command's inputs alone" % (m_, nm_)))
         con = "%s.execute::pure" % d.key
         if probs:
             ctx.violate("C02.b", con, d.module.rel, probs[0][0], "; ".join(p for _, p in probs[:3]))
